@@ -10,4 +10,6 @@ import CnbVerif.Props.C02
 #print axioms CnbVerif.C02.stepOk_persisted
 #print axioms CnbVerif.C02.stepOk_kept
 #print axioms CnbVerif.C02.stepOk_error
+#print axioms CnbVerif.C02.stepOk_declined
+#print axioms CnbVerif.C02.migration_survives_later_failure
 #print axioms CnbVerif.C02.stepOk_others_untouched
